@@ -14,9 +14,9 @@ Qed.
 
 Section Ids.
   Variable fetch : list line -> Z -> option Z -> option Z -> res (list line).
-  Hypothesis fetch_ok : forall f q a b, tabix_okb f = true -> fetch f q a b = fetch_spec f q a b.
+  Hypothesis fetch_ok : forall f q a b, tabix_accepts f = true -> fetch f q a b = fetch_spec f q a b.
   Variable f : list line.
-  Hypothesis Htab : tabix_okb f = true.
+  Hypothesis Htab : tabix_accepts f = true.
   Variable ids : list Z.
   Hypothesis ids_nodup : NoDup ids.
 
